@@ -126,14 +126,21 @@ def scoping_cases(tier, rng):
     return out
 
 
+def _lookup_stages(V, tier):
+    from checks import c02_lookup
+    return c02_lookup.stages(V, tier)
+
+
 def main(tier):
     rng = random.Random(common.seed())
     cases = precedence_cases(tier, rng) + scoping_cases(tier, rng)
     return render_common.run(
-        PID, tier, cases, ['result', 'calls'], batch=3000,
+        PID, tier, cases, ['result', 'calls'], batch=3000, extra_stage=_lookup_stages,
         assumptions=['each source binds the probed name to a distinct marker (plain, logging callable, template '
                      'with own defaults, falsy value)',
-                     'a client tuple is passed in path order, the last element is searched first'],
+                     'a client tuple is passed in path order, the last element is searched first',
+                     'second binding: every search of every TemplateDict in the C02 / C08 cases and in the repository\'s own 237 '
+                     'tests is recorded through frame proxies and validated by TLC against the projection spec ObsLookup'],
         rule='all 127 non-empty subsets of {call kw, template vars, last client, first client, call mapping, '
              'construction kw, construction mapping} x value kind x client shape x reference form (tag by name, '
              'expression probe, if-condition, let binding, expression condition); scoping: every binder '
